@@ -288,6 +288,65 @@ def reenter_via_internal_convert(depth: int, s0: int, s1: int, s2: int, s3: int,
   return out == (('boom',) if raises else ('ret', 41))
 
 
+# -- histories through the REAL call wrapper ------------------------------------------
+from crosshair.core import deep_realize
+from crosshair.tracers import NoTracing
+
+
+def _make_user_function():
+  seen = []
+
+  def work(x, boom):
+    seen.append(ag_ctx.control_status_ctx().status)
+    if x > 0:
+      x = x + 1
+    if boom:
+      raise _Boom()
+    return x
+
+  return api.convert(recursive=True)(work), seen
+
+
+def _legacy(fn, x, boom):
+  # low-level code that must not be converted and happens to call a user function
+  return fn(x, boom)
+
+
+_legacy = api.do_not_convert(_legacy)
+
+
+def _history(via_legacy, booms):
+  """The same convert()-decorated function invoked three times, each time either directly
+  or from inside a do_not_convert region, returning or raising: every invocation sees the
+  status its own calling context promises (nothing is remembered from earlier invocations)
+  and leaves the current status object as it found it."""
+  fn, seen = _make_user_function()
+  base = ag_ctx.control_status_ctx()
+  for legacy, boom in zip(via_legacy, booms):
+    del seen[:]
+    try:
+      r = _legacy(fn, 3, boom) if legacy else fn(3, boom)
+      out = ('ret', r)
+    except _Boom:
+      out = ('boom',)
+    if out != (('boom',) if boom else ('ret', 4)):
+      return False
+    if ag_ctx.control_status_ctx() is not base:
+      return False
+    if seen != [ag_ctx.Status.DISABLED if legacy else ag_ctx.Status.ENABLED]:
+      return False
+  return True
+
+
+def user_requested_history(l0: bool, l1: bool, l2: bool, r0: bool, r1: bool, r2: bool) -> bool:
+  """
+  post: _
+  """
+  v = deep_realize((l0, l1, l2, r0, r1, r2))
+  with NoTracing():
+    return _history(v[:3], v[3:])
+
+
 def reach_twin(depth: int, s0: int, s1: int, s2: int, s3: int, s: int, raises: bool, nest: bool) -> bool:
   """
   pre: 1 <= depth <= 4 and 0 <= s0 <= 2 and 0 <= s1 <= 2 and 0 <= s2 <= 2 and 0 <= s3 <= 2 and 0 <= s <= 2
@@ -298,9 +357,13 @@ def reach_twin(depth: int, s0: int, s1: int, s2: int, s3: int, s: int, raises: b
 
 
 HARNESSES = ['ctx_block', 'function_scope', 'with_function_scope', 'do_not_convert', 'unspecified',
-             'convert_wrapper', 'internal_convert', 'reenter_existing', 'reenter_via_internal_convert']
+             'convert_wrapper', 'internal_convert', 'reenter_existing', 'reenter_via_internal_convert',
+             'user_requested_history']
 
 
 def explain(func, args, kwargs):
+  if func == 'user_requested_history':
+    return ('three invocations of one convert(recursive=True) function, via do_not_convert region? %r, '
+            'raising? %r (real converted_call, real caches)' % (args[:3], args[3:]))
   return 'wrapper %s: pre-stack depth=%r statuses=%r s=%r flags=%r' % (
       func, args[0], args[1:5], args[5], args[6:])
